@@ -8,7 +8,7 @@ are push/pop pairs around what they wrap, each group / fill step takes its mode 
 It knows nothing about stacks, reversal, pop markers or lookahead.
 """
 import z3
-from .layout import C, U, LAYOUT, DOCTYPES, _Q_WALK, _WALK_ALL
+from .layout import C, U, LAYOUT, DOCTYPES
 
 
 @C.spec([('k', 'Int')], 'Bool', opaque=True)
@@ -283,6 +283,42 @@ def flatok_stack(stack):
 # ------------------------------------------------------------------------------------------------
 # lemmas
 
+@C.lemma([('i', 'Int'), ('m', 'Mode'), ('d', 'Obj'), ('st', 'St')],
+         requires=['wf(d)', 'flatok(m, d)'], ensures=['den(i, m, norm(d), st) == den(i, m, d, st)'],
+         triggers=['den(i, m, norm(d), st)'], trusted=True,
+         note='postcondition of normalize_doc (normalisation family, not yet proved): normalisation preserves the denotation '
+              'wherever no flat alternative stands next to an always_break (flatok)')
+def lemma_norm_den(i, m, d, st):
+    pass
+
+
+@C.lemma([('d', 'Obj')], requires=['wf(d)'],
+         ensures=['implies(hlsafe(d), hlsafe(norm(d)))', 'implies(nohl(d), nohl(norm(d)))',
+                  'implies(reach_ab(d), reach_ab(norm(d)))',
+                  'implies(flatok(FLAT_MODE, d), flatok(FLAT_MODE, norm(d)))'],
+         triggers=['norm(d)'], trusted=True,
+         note='postconditions of normalize_doc (normalisation family, not yet proved): normalisation introduces no hard line, '
+              'loses no always_break and keeps flatok')
+def lemma_norm_shape(d):
+    pass
+
+
+@C.lemma([('i', 'Int'), ('m', 'Mode'), ('d', 'Obj'), ('st', 'St')],
+         requires=['isinstance(d, FlatChoice)', 'wf(d)', 'flatok(m, d._when_flat)'],
+         ensures=['den(i, m, acc_flat(d), st) == den(i, m, d._when_flat, st)'],
+         triggers=['den(i, m, acc_flat(d), st)'])
+def lemma_acc_flat_den(i, m, d, st):
+    lemma_norm_den(i, m, d._when_flat, st)
+
+
+@C.lemma([('i', 'Int'), ('m', 'Mode'), ('d', 'Obj'), ('st', 'St')],
+         requires=['isinstance(d, FlatChoice)', 'wf(d)', 'flatok(m, d._when_broken)'],
+         ensures=['den(i, m, acc_broken(d), st) == den(i, m, d._when_broken, st)'],
+         triggers=['den(i, m, acc_broken(d), st)'])
+def lemma_acc_broken_den(i, m, d, st):
+    lemma_norm_den(i, m, d._when_broken, st)
+
+
 @C.lemma([('fn', 'CtxFn'), ('a', 'Int'), ('b', 'Int'), ('c', 'Int'), ('d', 'Int')],
          requires=['ctx_ok(fn)'],
          ensures=['hlsafe(apply_ctx(fn, a, b, c, d))', 'nohl(apply_ctx(fn, a, b, c, d))',
@@ -349,7 +385,7 @@ _WQ = [('mw', 'Int'), ('smart', 'Bool'), ('mnl', 'Int'), ('i', 'Int')]
 
 
 @C.lemma(_WQ + [('m', 'Mode'), ('d', 'Obj'), ('w', 'Int')],
-         requires=['w >= 0'],
+         requires=['w >= 0', 'wf(d)'],
          ensures=['implies(walk(mw, smart, mnl, i, m, d, w).status is GO, walk(mw, smart, mnl, i, m, d, w).w >= 0)'],
          triggers=['walk(mw, smart, mnl, i, m, d, w)'], decreases=['size(d)'], group='go')
 def lemma_go_nonneg(mw, smart, mnl, i, m, d, w):
@@ -364,14 +400,14 @@ def lemma_go_nonneg(mw, smart, mnl, i, m, d, w):
     elif isinstance(d, Group):
         lemma_go_nonneg(mw, smart, mnl, i, FLAT_MODE, d.doc, w)
     elif isinstance(d, FlatChoice):
-        lemma_go_nonneg(mw, smart, mnl, i, m, d._when_flat, w)
-        lemma_go_nonneg(mw, smart, mnl, i, m, d._when_broken, w)
+        lemma_go_nonneg(mw, smart, mnl, i, m, acc_flat(d), w)
+        lemma_go_nonneg(mw, smart, mnl, i, m, acc_broken(d), w)
     elif isinstance(d, Contextual):
-        lemma_go_nonneg(mw, smart, mnl, i, m, apply_ctx(d.fn, i, mw - w, PW, RW), w)
+        lemma_go_nonneg(mw, smart, mnl, i, m, norm(apply_ctx(d.fn, i, mw - w, PW, RW)), w)
 
 
 @C.lemma(_WQ + [('m', 'Mode'), ('ds', 'ObjList'), ('w', 'Int')],
-         requires=['w >= 0'],
+         requires=['w >= 0', 'wflist(ds)'],
          ensures=['implies(walklist(mw, smart, mnl, i, m, ds, w).status is GO, walklist(mw, smart, mnl, i, m, ds, w).w >= 0)'],
          triggers=['walklist(mw, smart, mnl, i, m, ds, w)'], decreases=['sizelist(ds)'], group='go')
 def lemma_go_nonneg_list(mw, smart, mnl, i, m, ds, w):
@@ -385,7 +421,7 @@ def lemma_go_nonneg_list(mw, smart, mnl, i, m, ds, w):
 
 
 @C.lemma(_WQ + [('d', 'Obj'), ('w', 'Int')],
-         requires=['nohl(d)'],
+         requires=['nohl(d)', 'wf(d)'],
          ensures=['not (walk(mw, smart, mnl, i, FLAT_MODE, d, w).status is FITS)'],
          triggers=['walk(mw, smart, mnl, i, FLAT_MODE, d, w)'], decreases=['size(d)'], group='nofits')
 def lemma_nofits(mw, smart, mnl, i, d, w):
@@ -401,13 +437,13 @@ def lemma_nofits(mw, smart, mnl, i, d, w):
     elif isinstance(d, Group):
         lemma_nofits(mw, smart, mnl, i, d.doc, w)
     elif isinstance(d, FlatChoice):
-        lemma_nofits(mw, smart, mnl, i, d._when_flat, w)
+        lemma_nofits(mw, smart, mnl, i, acc_flat(d), w)
     elif isinstance(d, Contextual):
-        lemma_nofits(mw, smart, mnl, i, apply_ctx(d.fn, i, mw - w, PW, RW), w)
+        lemma_nofits(mw, smart, mnl, i, norm(apply_ctx(d.fn, i, mw - w, PW, RW)), w)
 
 
 @C.lemma(_WQ + [('ds', 'ObjList'), ('w', 'Int')],
-         requires=['nohl_list(ds)'],
+         requires=['nohl_list(ds)', 'wflist(ds)'],
          ensures=['not (walklist(mw, smart, mnl, i, FLAT_MODE, ds, w).status is FITS)'],
          triggers=['walklist(mw, smart, mnl, i, FLAT_MODE, ds, w)'], decreases=['sizelist(ds)'], group='nofits')
 def lemma_nofits_list(mw, smart, mnl, i, ds, w):
@@ -418,7 +454,7 @@ def lemma_nofits_list(mw, smart, mnl, i, ds, w):
 
 
 @C.lemma(_WQ + [('d', 'Obj'), ('w', 'Int')],
-         requires=['nrm_ab(d)', 'nohl(d)', 'w >= 0'],
+         requires=['nrm_ab(d)', 'nohl(d)', 'w >= 0', 'wf(d)'],
          ensures=['walk(mw, smart, mnl, i, FLAT_MODE, d, w).status is FAILS'],
          triggers=['walk(mw, smart, mnl, i, FLAT_MODE, d, w)'], decreases=['size(d)'], group='forced')
 def lemma_forced_fails(mw, smart, mnl, i, d, w):
@@ -434,7 +470,7 @@ def lemma_forced_fails(mw, smart, mnl, i, d, w):
 
 
 @C.lemma(_WQ + [('ds', 'ObjList'), ('w', 'Int')],
-         requires=['nrm_ab_list(ds)', 'nohl_list(ds)', 'w >= 0'],
+         requires=['nrm_ab_list(ds)', 'nohl_list(ds)', 'w >= 0', 'wflist(ds)'],
          ensures=['walklist(mw, smart, mnl, i, FLAT_MODE, ds, w).status is FAILS'],
          triggers=['walklist(mw, smart, mnl, i, FLAT_MODE, ds, w)'], decreases=['sizelist(ds)'], group='forced')
 def lemma_forced_fails_list(mw, smart, mnl, i, ds, w):
@@ -447,7 +483,7 @@ def lemma_forced_fails_list(mw, smart, mnl, i, ds, w):
 
 
 @C.lemma(_WQ + [('ds', 'ObjList'), ('w', 'Int')],
-         requires=['fill_any_ab(ds)', 'nohl_list(ds)', 'w >= 0'],
+         requires=['fill_any_ab(ds)', 'nohl_list(ds)', 'w >= 0', 'wflist(ds)'],
          ensures=['walklist(mw, smart, mnl, i, FLAT_MODE, ds, w).status is FAILS'],
          triggers=['walklist(mw, smart, mnl, i, FLAT_MODE, ds, w)'], decreases=['sizelist(ds)'], group='forced')
 def lemma_fill_ab_fails(mw, smart, mnl, i, ds, w):
@@ -461,7 +497,8 @@ def lemma_fill_ab_fails(mw, smart, mnl, i, ds, w):
 
 @C.lemma(_WQ + [('d', 'Obj'), ('w', 'Int')],
          ensures=['implies(walk(mw, smart, mnl, i, FLAT_MODE, d, w).status is GO, not reach_ab(d))'],
-         triggers=['walk(mw, smart, mnl, i, FLAT_MODE, d, w)'], decreases=['rank(d)'], group='goab')
+         requires=['wf(d)'],
+         triggers=['walk(mw, smart, mnl, i, FLAT_MODE, d, w)'], decreases=['size(d)'], group='goab')
 def lemma_go_abfree(mw, smart, mnl, i, d, w):
     """a flat walk that runs through a whole document met no always_break"""
     if isinstance(d, Concat):
@@ -475,12 +512,13 @@ def lemma_go_abfree(mw, smart, mnl, i, d, w):
     elif isinstance(d, Group):
         lemma_go_abfree(mw, smart, mnl, i, d.doc, w)
     elif isinstance(d, FlatChoice):
-        lemma_go_abfree(mw, smart, mnl, i, d._when_flat, w)
+        lemma_go_abfree(mw, smart, mnl, i, acc_flat(d), w)
 
 
 @C.lemma(_WQ + [('ds', 'ObjList'), ('w', 'Int')],
          ensures=['implies(walklist(mw, smart, mnl, i, FLAT_MODE, ds, w).status is GO, not reach_ab_list(ds))'],
-         triggers=['walklist(mw, smart, mnl, i, FLAT_MODE, ds, w)'], decreases=['rank(ds)'], group='goab')
+         requires=['wflist(ds)'],
+         triggers=['walklist(mw, smart, mnl, i, FLAT_MODE, ds, w)'], decreases=['sizelist(ds)'], group='goab')
 def lemma_go_abfree_list(mw, smart, mnl, i, ds, w):
     if not ds:
         return
@@ -500,18 +538,6 @@ def lemma_push_rev_flatok(stack, i, m, ds):
 
 # ------------------------------------------------------------------------------------------------
 # contracts: best_layout against den
-
-_DEN_ALL = 'den(i_, m_, result, st_) == den(i_, m_, %s, st_)'
-_Q_DEN = dict(i_='Int', m_='Mode', st_='St')
-
-for _key, _raw in ((DOCTYPES + ':normalize_doc', 'doc'), (DOCTYPES + ':FlatChoice.when_flat', 'self._when_flat'),
-                   (DOCTYPES + ':FlatChoice.when_broken', 'self._when_broken')):
-    _c = C.fns[_key]
-    from pvf.pyvc.contract import Clause as _Clause
-    _c.ensures.append(_Clause('den', 'implies(flatok(m_, %s), %s)' % (_raw, _DEN_ALL % _raw)))
-    _c.ensures.append(_Clause('flatok', 'implies(flatok(m_, %s), flatok(m_, result))' % _raw))
-    _c.ensures.append(_Clause('hlsafe', 'implies(hlsafe(%s), hlsafe(result))' % _raw))
-    _c.forall.update(_Q_DEN)
 
 C.proto('fitting_predicate',
         params={'page_width': 'Int', 'ribbon_frac': 'Float', 'min_nesting_level': 'Int',
